@@ -21,8 +21,8 @@ import (
 
 func init() {
 	register(&Property{
-		ID:    "C19",
-		Level: "other",
+		ID:      "C19",
+		Level:   "other",
 		Explain: "Decides structural necessary conditions of the laws: (V) in URLEscape every loop cycle that leaves bytes in place (the copy mark does not move) advances by a constant number of bytes, and each of those bytes has been tested on that path by predicates that — evaluated here for all 256 byte values from the source's own tables and predicate bodies — admit only unreserved ASCII, '%' followed by two hex digits, or bytes that cannot start a UTF-8 sequence; every other cycle moves the copy mark and writes only the pending verbatim range, constant escapes or url.QueryEscape output: so the output has no space, control, quote or angle byte, every kept '%' is a valid triple, and valid UTF-8 comes out as ASCII; (X) Extend/ExtendString store only exclusively owned bucket slices into the derived filter, and Add appends only to a bucket of its own receiver; (T) the pass-through table, the UTF-8 length table and the HTML escape table have exactly the required classes and are never written; (R) every code point decoded from a numeric reference passes the validator (0 and invalid code points become U+FFFD) before it is encoded; (W,B) no util function writes into its argument (= C12-W/B); (E) EscapeHTML replaces every byte that has a table entry (= C03-E). Not decided: idempotence of URLEscape, decoding back to the input, UTF-8 validity of resolver output in general, case folding and whitespace collapsing, set semantics of BytesFilter beyond aliasing.",
 		Trusted: []string{"url.QueryEscape emits only unreserved ASCII, '+' and %XX", "utf8.ValidRune"},
 		Assumes: []string{"none beyond Go semantics"},
@@ -935,7 +935,7 @@ func ruleValidRune(w *World, r *Report) {
 		}
 		return nil, false
 	}
-	parseFns := map[*ssa.Function]bool{} // module helpers that hand back a parsed number (an extracted digit-run reader)
+	parseFns := map[*ssa.Function]bool{}       // module helpers that hand back a parsed number (an extracted digit-run reader)
 	taintedParams := map[*ssa.Parameter]bool{} // parameters of module helpers that receive a parsed number at some call site
 	fromParse := func(v ssa.Value) bool {
 		found := false
@@ -1470,4 +1470,3 @@ func sameObject(a, b ssa.Value) bool {
 
 // producedBy: obj is the (type-asserted) result of call c.
 func producedBy(obj ssa.Value, c *ssa.Call) bool { return sameObject(obj, c) }
-
